@@ -10,19 +10,19 @@ CHECKS = {
          "Trusts the harness's own definition of blank (from the statement) and of keyword word (the 122-keyword table)."),
  "C04": ("bounded-exhaustive + random generation; oracle = call returns (process-isolated workers with watchdog), work oracle on conditional passes",
          "Exploration with process isolation: exhaustive 3-lexeme sequences (4 in thorough), pairs x configurations in a build with debug assertions, random soup/text/mutated seeds/directive-heavy/nested/long inputs x configurations x cursor lists. A worker that aborts or stops advancing is re-run alone in a fresh process (60 s) before a violation is reported; conditional-pass count must be linear (hook).",
-         "Hang oracle only for inputs <= 256 bytes; nesting deeper than 500 excluded by construction; absence of hangs/aborts is not established beyond the explored inputs."),
+         "Hang oracle for inputs <= 256 bytes and for the single-construct nests of the scaling families (depth 40, <= 1600 bytes); nesting deeper than 500 excluded by construction; absence of hangs/aborts is not established beyond the explored inputs."),
  "C02": ("grammar-based random generation (proptest tapes) + layout/comment transformations; re-scan round-trip oracle against an independent reference scanner and the lexer",
          "Exploration: grammar-derived programs in random layouts with comments and keyword-case variation, plus repository seeds, x configurations; the output must scan (independent scanner and DelphiLexer) to the same kinds and texts up to the documented normalisations.",
          "Well-formedness is by construction from the harness grammar (DESIGN Appendix A); breadth of the grammar is reported in the evidence class histogram."),
  "C03": ("grammar-based random generation; fixpoint oracle f(f(x)) == f(x), f^3 == f^2",
          "Exploration: as C02 plus programs with multi-line strings, narrow widths emphasised; byte equality of successive passes.",
-         "Known finding F-C03-mlstr-child (stale child-line cache after multi-line string re-indentation) is excluded by signature and counted."),
+         "Also through the binary: write, --mode=check, second in-place run."),
  "C05": ("grammar-based random generation with structural annotations; validity predicate over the output (relative indentation of marked tokens)",
          "Exploration: the generator records every statement/member start, closer and control-flow begin with the token that starts the opener's line; the output must place each on its own line at the stated relative depth, for all widths, both begin styles, tabs and spaces.",
-         "Anonymous-routine bodies and single-statement bodies are not asserted (not in the statement). Known findings (iteration limit fall-back, anonymous routine with array-of parameter in a condition) excluded by signature."),
+         "Anonymous-routine bodies and single-statement bodies are not asserted (not in the statement)."),
  "C06": ("metamorphic relation between two generated layouts of one token vector",
          "Exploration: pairs of renderings that differ only in free gaps (blank amounts, indentation, space <-> single line break, zero width where lexemes may touch, size of blank-line groups) with comment gaps and blank-line grouping fixed; format(r1) == format(r2).",
-         "Both renderings must scan back to the same lexemes (checked); no verbatim regions in this stream."),
+         "Both renderings must scan back to the same lexemes (checked); stream toggled keeps one verbatim region identical in both renderings; asm instruction lines keep their gaps."),
  "C08": ("bounded-exhaustive + random generation; validity predicate over output whitespace",
          "Exploration: every 3-lexeme sequence with non-canonical separators, pairs x separators x configurations, random soup/text/mutated seeds and grammar-derived programs; the output (scanned by the independent scanner, verbatim regions / asm / multi-line tokens skipped) must satisfy the five whitespace clauses.",
          "For arbitrary text the check is skipped when the output does not scan to the same token kinds as the input or contains toggle comments (regions cannot be located soundly); several genuine deviations are listed as known findings."),
@@ -46,13 +46,13 @@ CHECKS = {
          "Lines inside multi-line comments are verbatim and only compared for equality."),
  "C11": ("grammar-based generation (ASCII-only); metamorphic relations between two wrap_column values",
          "Exploration: pairs W1 < W2; identity when the wide result fits the narrow column, line-count monotonicity, fit monotonicity.",
-         "Two known findings (overflow regime; heuristic search on postfix chains) are excluded by signature and counted."),
+         "Asserted strictly on a simple-expression domain (incl. through the binary and on statements with multi-line literals); on general programs the heuristic search violates all three clauses about once in 10 000 cases (finding)."),
  "C12": ("generated multi-line literals in generated positions; value round-trip with an own literal parser",
          "Exploration: literal shapes (quote runs, endings, indentation kinds, blank/short/over-indented lines, invalid and ambiguous variants) x positions x layouts x configurations; value, terminators and indentation clauses per literal.",
          "Ambiguous whitespace-only lines: only value preservation of regular lines is asserted."),
  "C16": ("generated file-system scenarios run through the real binary; differential between modes and against the library model",
          "Exploration: contents (generated programs, arbitrary text, large flat files), BOM, siblings, decoys, undecodable and missing files x path forms x modes x configurations; exact byte, exit-status and mtime oracles.",
-         "UTF-8 only here (C17 covers encodings)."),
+         "UTF-8 and windows-1252 here (C17 covers encodings)."),
  "C17": ("generated texts per encoding run through the real binary; round-trip against independent encoders",
          "Exploration: 45 encoding labels x BOMs x representable texts x file/stdin; bytes written == BOM + encode(format(decode)); malformed input rejected and untouched.",
          "UTF-8/16 encoders hand-written; legacy encodings use encoding_rs as the reference encoder."),
@@ -68,7 +68,11 @@ NOT_YET = {}
 
 def main():
     checks = []
+    kf = json.load(open("/verif/known_findings.json"))
     for pid, (technique, level_text, note) in sorted(CHECKS.items()):
+        open_ids = sorted(e["id"] for e in kf if e["property"] == pid and e["status"] == "open")
+        if open_ids:
+            note = note + " Open findings (known_findings.json), excluded by signature and counted in the evidence: " + ", ".join(open_ids) + "."
         checks.append({
             "property_id": pid,
             "quick_cmd": f"./run {pid} quick",
